@@ -179,6 +179,17 @@ theorem C11_retrievable_nodict (fx : Fixes) (t8 t9 t35 : TagValue) (pre : List T
 theorem C11_parse_total (d : Dicts) (w : Bytes) : ∀ x, parseMessage Fixes.cur d w ≠ .fault x :=
   parseMessage_nofault d w
 
+/-- GETTERS ON A PARSED MESSAGE NEVER PANIC (`C09_getters_total`, codec part).  In every message the fixed parser returns —
+    any input, any dictionaries — each section map holds only non-empty views inside `Message.fields`; hence `GetBytes`,
+    `GetInt` and `GetGroup` (any template, any nesting) on any section and any tag return a value or an error, never an
+    index / slice fault. -/
+theorem C11_getters_total (d : Dicts) (w : Bytes) (m : Message) (hm : parseMessage Fixes.cur d w = .ok m) (s : Sec) (t : Tag) :
+    (∀ x, (m.sec s).getBytes m.fields t ≠ .fault x) ∧ (∀ x, (m.sec s).getInt m.fields t ≠ .fault x) ∧
+    ∀ (f : Field) (tmpl : List Item), alFind (m.sec s).lookup t = some f → ∀ x, getGroup tmpl (f.full m.fields) ≠ .fault x := by
+  obtain ⟨vh, vb, vt⟩ := parseMessage_views d w m hm
+  have hv : ViewsOK m.fields (m.sec s) := by cases s <;> assumption
+  exact ⟨getBytes_nofault hv t, getInt_nofault' hv t, fun f tmpl hf => getGroup_nofault hv t f hf tmpl⟩
+
 /-! ## not (yet) theorems — checked on every run by `Qfx.Spec.monParse` on the implementation and by the correspondence -/
 
 /-- for every well-formed wire message: success, fields in wire order with exact values, raw bytes unchanged -/
@@ -218,5 +229,5 @@ example : (extractField [56, 61, 70, 1, 57, 61, 53, 1]).1 = [57, 61, 53, 1] := b
    "first three fields are not 8, 9, 35 … rejected"                                          C11_rejects_order
    "BodyLength disagrees with its content … rejected"                                        C11_rejects_length, C11_finish_checks_length,
                                                                                               C11_loop_ends_in_length_check (+ monitor rejects_length)
-   "rejected with an error" = never a panic (C09 codec part)                                 C11_parse_total (all inputs, all dictionaries, fixed code);
+   "rejected with an error" = never a panic (C09 codec part)                                 C11_parse_total, C11_getters_total (all inputs, all dictionaries, fixed code);
                                                                                               unchanged code: C11_orig_no_checksum_faults, C11_orig_xml_len_faults -/
